@@ -30,6 +30,19 @@ Clauses (statement -> clause):
                                Exact equality with the teneva metric functions (the clause is about agreement of the
                                report with the returned tensor) plus an own dense evaluation with tolerance.
 
+* C05.cross.interrupted_every_call  runs that end INSIDE a sweep (stop 'm': smallest / largest budget that stops
+                               right before an evaluation; stop 'func': the objective returns None at that evaluation)
+                               at EVERY evaluation after the working ranks have reached rho - from the first request of
+                               the right-to-left half of sweep s0 + 1 (s0 = 0 for a fixed-rank start at r0 >= rho,
+                               ceil((rho - r0) / (2 dr_min)) with growth) to the end of sweep s0 + 2 (thorough s0 + 3):
+                               the returned tensor (new cores of the running half-sweep, pending factor folded into
+                               the next core, cores of the previous half-sweep) is well-formed, of the same shape and
+                               equals the target (rel. 1e-8), reported e_vld <= 1e-8.  The position of an evaluation
+                               is read from the caller-visible info dictionary (completed sweeps, rows requested) and
+                               the request sizes of the uncached run.  With / without cache and validation data;
+                               fixed-rank starts rho, rho+1, rho+3, ragged profiles, growth 1/1, 1/2 (2/2, 1/3, 2/3
+                               thorough), d = 2..5 (6 thorough), some non-default options.
+
 Parameter coverage (every clause takes an optional `opt` dictionary; the systematic part above uses the defaults):
 target scale 1e-12 .. 1e12 (1e+-30 thorough; the property is homogeneous in the target, all tolerances are
 relative), scale of the start 1e-8 / 1e8, Fortran-ordered and non-contiguous cores of the start, rank profiles of
@@ -55,7 +68,8 @@ BOUNDS = ('d in 2..4 (6; 9 thorough), n_k in 1..6 (40; 70 thorough), rho <= 3 (q
           'from r0 in {1, 2}; 14 systematic shapes + random ones; cache None / {} / pre-filled; 6 ways of ending a run '
           'for the info clause; target scale 1e-12..1e12 (1e+-30 thorough), start scale 1e+-8, tau {1,1.01,3,1e6}, tau0 '
           '{1,2,10}, k0 {1,2}, F-ordered / non-contiguous starts, list-form validation data, func hook, log=True, '
-          'integer-valued objective')
+          'integer-valued objective; runs ended inside a sweep by budget / objective at every evaluation after the ranks '
+          'reached rho: 6 shapes d = 2..5 (16 thorough, d <= 6) x rho 1..3 x 3 (10) start / growth modes x {m, func}')
 
 FUNCS = ('cross.cross', 'cross._func', 'cross._func_eval', 'cross._iter', 'utils._info_appr', 'utils._maxvol')
 HUGE = 10 ** 18
@@ -207,6 +221,97 @@ def reproduce(n, rho, r0, dr_min, dr_max, nswp, tseed, yseed, cache, vld, opt=No
     if vld and not (0 <= info['e_vld'] <= 1e-8):
         return FAIL(f"reported e_vld {info['e_vld']:.3e} although the result equals the target")
     return PASS
+
+
+class _PosOracle(_Oracle):
+    """_Oracle that also notes, at every call, where the run is: (completed sweeps, rows requested so far), read from
+    the caller-visible info dictionary (the counters are updated only after a successful call)."""
+
+    def __init__(self, T, info, none_at=None):
+        super().__init__(T, none_at)
+        self.info, self.pos = info, []
+
+    def __call__(self, I):
+        self.pos.append((int(self.info.get('nswp', 0)), int(self.info.get('m', 0)) + int(self.info.get('m_cache', 0))))
+        return super().__call__(I)
+
+
+def _sweeps_to_reach(rho, r0, dr_min):
+    """Complete sweeps after which every column index set has >= rho elements (None: never)."""
+    r0min = r0 if isinstance(r0, int) else min(r0[1:-1])
+    if r0min >= rho:
+        return 0
+    if dr_min < 1:
+        return None
+    return -(-(rho - r0min) // (2 * dr_min))
+
+
+@clause('C05.cross.interrupted_every_call', funcs=FUNCS + ('maxvol.maxvol', 'maxvol.maxvol_rect'))
+def interrupted_every_call(n, rho, r0, dr_min, dr_max, extra, tseed, yseed, cache, vld, end, opt=None):
+    """The run is ended INSIDE a sweep - by the budget m (end='m': m is the smallest / the largest budget that stops the
+    run right before that evaluation) or by the objective returning None (end='func') - at EVERY evaluation that comes
+    after the working ranks have reached rho: with s0 = _sweeps_to_reach sweeps completed, every evaluation from the
+    first one of the right-to-left half of sweep s0 + 1 (all cores have then been rebuilt from index sets of >= rho
+    elements) to the last one of sweep s0 + 1 + extra.  Every such result is a well-formed finite TT of the same
+    shape with ||dense(Y) - T|| <= 1e-8 ||T|| (and a reported e_vld <= 1e-8 with validation data): the left part
+    (new left-to-right cores), the pending factor folded into the next core and the right part (cores of the previous
+    half-sweep) interpolate the same rank-rho tensor."""
+    T, Y0 = _setup(n, rho, r0, tseed, yseed, opt)
+    bad = _ill_conditioned(T, n, rho)
+    if bad:
+        return SKIP(bad)
+    s0 = _sweeps_to_reach(rho, r0, dr_min)
+    if s0 is None:
+        return SKIP('working ranks never reach rho')
+    d = len(n)
+    nswp = s0 + 1 + extra
+    kw = dict(dr_min=dr_min, dr_max=dr_max, m_cache_scale=HUGE, **_xkw(opt))
+    if vld:
+        kw['I_vld'], kw['y_vld'] = _vld(T, n, tseed, opt=opt)
+    # requests of the unconstrained uncached run (sizes), and the calls of the unconstrained run with this cache setting
+    unc = _Oracle(T)
+    teneva.cross(unc, Y0, nswp=nswp, info={}, cache=None, **kw)
+    starts = {0: 0}
+    for j, b in enumerate(unc.batches):
+        starts[max(starts) + len(b)] = j + 1
+    iref = {}
+    ref = _PosOracle(T, iref)
+    teneva.cross(ref, Y0, nswp=nswp, info=iref, cache={} if cache else None, **kw)
+    if iref['stop'] != 'nswp' or len(unc.batches) != 2 * d * nswp:
+        return FAIL(f"reference run: stop {iref['stop']}, {len(unc.batches)} requests for {nswp} sweeps")
+    tested, nT, rows_before = 0, float(np.linalg.norm(T)), 0
+    for k, (b, (sw, asked)) in enumerate(zip(ref.batches, ref.pos), start=1):
+        before, rows_before = rows_before, rows_before + len(b)
+        if asked not in starts:
+            return SKIP('requests of the cached run cannot be aligned with the uncached run (cache_transparent decides)')
+        j = starts[asked] - 2 * d * sw          # request number inside its sweep (0 .. 2d-1)
+        if sw < s0 or (sw == s0 and j < d):
+            continue                            # outside: left-to-right cores of the start / of too small index sets survive
+        info = {}
+        f = _Oracle(T, none_at=k if end == 'func' else None)
+        if end == 'm':
+            kw2 = dict(kw, m=before + (0 if k % 2 else len(b) - 1))
+            if kw2['m'] < 1:
+                continue
+        else:
+            kw2 = kw
+        Y = teneva.cross(f, Y0, nswp=nswp, info=info, cache={} if cache else None, **kw2)
+        where = f'{end} at evaluation {k} (sweep {sw + 1}, request {j + 1} of {2 * d})'
+        if info.get('stop') != end or info.get('nswp') != sw:
+            return FAIL(f"{where}: stop {info.get('stop')!r} after {info.get('nswp')} sweeps")
+        msg = gen.wf(Y, n)
+        if msg:
+            return FAIL(f'{where}: result not well-formed / wrong shape: {msg}')
+        if not gen.finite(Y):
+            return FAIL(f'{where}: non-finite cores')
+        rel = float(np.linalg.norm(gen.dense(Y) - T)) / nT
+        if not rel <= 1e-8:
+            return FAIL(f'{where}: relative error {rel:.3e} > 1e-8 although the working ranks '
+                        f'{[G.shape[2] for G in Y[:-1]]} have reached rho = {rho}; evaluated {info["m"]}')
+        if vld and not (0 <= info['e_vld'] <= 1e-8):
+            return FAIL(f"{where}: reported e_vld {info['e_vld']:.3e} although the result equals the target")
+        tested += 1
+    return PASS if tested else TRIVIAL('no evaluation after the ranks reached rho')
 
 
 def _prefill(T, n, cnt, seed):
@@ -445,6 +550,41 @@ def cases(tier, seed):
                     yield 'C05.cross.info_reports', dict(
                         n=n, rho=rho, r0=r0, dr_min=a, dr_max=b, nswp=nswp, tseed=int(g.integers(1 << 30)),
                         yseed=int(g.integers(1 << 30)), cache=bool(k % 2), vld=bool((k // 2) % 2), end=end, frac=frac)
+    # ------------------------------------------------------------ runs that end INSIDE a sweep (budget / objective),
+    # every evaluation after the working ranks have reached rho (own generator; see interrupted_every_call)
+    g3 = gen.rng('C05int', seed)
+    ishapes = [[6, 5], [3, 3, 3], [6, 2, 5], [3, 4, 2, 3], [4, 3, 3, 4], [3, 4, 5, 4, 3]]
+    if big:
+        ishapes += [[2, 2], [3, 6], [4, 1], [2, 1, 3], [1, 5, 4], [2, 2, 2, 2], [5, 1, 2, 6], [2] * 6, [12, 2, 12], [3, 40]]
+    k = j = 0
+    for n in ishapes:
+        for rho in (1, 2, 3):
+            d = len(n)
+            j += 1
+            prof = [1] + [rho + (q % 3) for q in range(d - 1)] + [1]
+            imodes = [(rho, 0, 0), (rho + 1, 0, 0), (1, 1, 1), (1, 1, 2), (rho + 3, 0, 0), (prof, 0, 0), (2, 1, 1), (1, 2, 2),
+                      (1, 1, 3), (1, 2, 3)]
+            imodes = [mo for mo in imodes if not (mo[1] and mo[0] > rho)]
+            for mi, (r0, a, b) in enumerate(imodes):
+                if not big and (r0, a, b) not in [imodes[q % len(imodes)] for q in (j % 4, (j + 2) % 4, 4 + j % 2)]:
+                    continue                    # quick: three of the first six modes per (shape, rho), rotating
+                for end in ('m', 'func'):
+                    for extra in ((1, 2) if big and mi in (0, 2) else (1,)):
+                        k += 1
+                        yield 'C05.cross.interrupted_every_call', dict(
+                            n=n, rho=rho, r0=r0, dr_min=a, dr_max=b, extra=extra, tseed=int(g3.integers(1 << 30)),
+                            yseed=int(g3.integers(1 << 30)), cache=bool((k // 2) % 2), vld=bool((k // 4) % 2), end=end)
+    for oi, o in enumerate([{'scale': 1e-8}, {'tau': 3.0}, {'order': 'F'}] + ([{'scale': 1e8}, {'tau': 1.0}, {'tau0': 2.0, 'k0': 1},
+                           {'yscale': 1e8}, {'order': 'V'}, {'vform': 'list'}, {'func': 'hook'}] if big else [])):
+        for q, n in enumerate(ishapes[1:4] if not big else ishapes[:8]):
+            if not big and (oi + q) % 3 == 2:
+                continue
+            for (rho, r0, a, b) in ((2, 2, 0, 0), (3, 1, 1, 2)) if (big or (oi + q) % 2) else ((3, 3, 0, 0), (2, 1, 1, 1)):
+                k += 1
+                yield 'C05.cross.interrupted_every_call', dict(
+                    n=n, rho=rho, r0=r0, dr_min=a, dr_max=b, extra=1, tseed=int(g3.integers(1 << 30)),
+                    yseed=int(g3.integers(1 << 30)), cache=bool(k % 2), vld=bool((k // 2) % 2) or 'vform' in o,
+                    end=('m', 'func')[(k // 4 + k) % 2], opt=o)
     # ------------------------------------------------------------ parameter / regime coverage (own generator)
     g2 = gen.rng('C05cov', seed)
 
